@@ -141,67 +141,80 @@ Fixpoint bisect_left (b : list bin) (v : T) : nat :=
   | (x, f) :: t => if ltb A x v || (eqb A x v && Z.ltb f 1) then S (bisect_left t v) else O
   end.
 
-Definition last_index (s : st) : nat := length (bins s) - 1.
+(* where the new value goes: (index, "index is -1") - 0 when value <= first centre, the last
+   position ("-1") when value >= last centre, bisect_left otherwise *)
+Definition locate (b : list bin) (v : T) : nat * bool :=
+  match b with
+  | [] => (O, false)
+  | (v0, _) :: _ =>
+      if leb A v v0 then (O, false)
+      else match nth_error b (length b - 1) with
+           | Some (vl, _) => if leb A vl v then ((length b - 1)%nat, true) else (bisect_left b v, false)
+           | None => (O, false)
+           end
+  end.
+
+(* _search_in_place_index fills the gap cache on first use (_compute_diffs) *)
+Definition ensure_cache (s : st) : option st :=
+  match diffs s with
+  | Some _ => Some s
+  | None => let g := gaps (bins s) in do m <- lmin g; Some (with_cache s (Some g) (Fin m))
+  end.
+
+(* _search_in_place_index + the caller's "in_place_index > 0" test: Some ib = merge the new
+   value into bin ib without inserting *)
+Definition choose_in_place (s1 : st) (v : T) (pos : nat) : option (option nat) :=
+  do '(vp, _) <- nth_error (bins s1) (pos - 1);
+  do '(vq, _) <- nth_error (bins s1) pos;
+  let d1 := sub A v vp in let d2 := sub A vq v in
+  let '(ib, d) := if ltb A d1 d2 then ((pos - 1)%nat, d1) else (pos, d2) in
+  Some (if lt_ext d (min_diff s1) && Nat.ltb 0 ib then Some ib else None).
+
+(* _trim_in_place *)
+Definition in_place (s1 : st) (v : T) (c : Z) (ib : nat) : option st :=
+  do '(cv, cf) <- nth_error (bins s1) ib;
+  let m := centroid cv cf v c in
+  (* rounding must not carry the merged centre outside the two values it replaces *)
+  let m := pmin (pmax m (pmin cv v)) (pmax cv v) in
+  update_diffs (with_bins s1 (set_at ib (m, (cf + c)%Z) (bins s1))) ib.
+
+(* append / insert the new bin, maintain the cache, widen the bounds, trim *)
+Definition insert_path (s1 : st) (v : T) (c : Z) (pos : nat) (is_last : bool) : option st :=
+  do s2 <-
+    (if is_last then
+       do '(vl, _) <- nth_error (bins s1) (length (bins s1) - 1);
+       let g := sub A v vl in
+       Some (mkst (bins s1 ++ [(v, c)]) (hmin s1) (hmax s1)
+                  (option_map (fun d => d ++ [g]) (diffs s1))
+                  (match diffs s1 with Some _ => (if lt_ext g (min_diff s1) then Fin g else min_diff s1) | None => min_diff s1 end)
+                  (cap s1))
+     else
+       update_diffs (mkst (insert_at pos (v, c) (bins s1)) (hmin s1) (hmax s1)
+                          (option_map (insert_at pos (ofZ A 0)) (diffs s1)) (min_diff s1) (cap s1)) pos);
+  let mn := match hmin s2 with None => Some v | Some m => if ltb A v m then Some v else Some m end in
+  let mx := match hmax s2 with None => Some v | Some m => if ltb A m v then Some v else Some m end in
+  let s3 := mkst (bins s2) mn mx (diffs s2) (min_diff s2) (cap s2) in
+  trim (length (bins s3)) s3.
+
+(* everything after the exact-hit test *)
+Definition update_miss (s : st) (v : T) (c : Z) (pos : nat) (is_last : bool) : option st :=
+  let try_in_place := negb is_last && Nat.ltb 0 pos && Nat.leb (cap s) (length (bins s)) in
+  do s1 <- (if try_in_place then ensure_cache s else Some s);
+  do inplace <- (if try_in_place then choose_in_place s1 v pos else Some None);
+  match inplace with
+  | Some ib => in_place s1 v c ib
+  | None => insert_path s1 v c pos is_last
+  end.
 
 (* update(h, value, count) *)
 Definition update (s : st) (v : T) (c : Z) : option st :=
   if Z.leb c 0 then None else
-  let n := length (bins s) in
-  (* index: 0, -1 (= n-1, "last") or bisect *)
-  let '(pos, is_last) :=
-    match bins s with
-    | [] => (O, false)
-    | (v0, _) :: _ =>
-        if leb A v v0 then (O, false)
-        else match nth_error (bins s) (n - 1) with
-             | Some (vl, _) => if leb A vl v then ((n - 1)%nat, true) else (bisect_left (bins s) v, false)
-             | None => (O, false)
-             end
-    end in
-  let hit := match nth_error (bins s) pos with Some (vi, _) => eqb A vi v | None => false end in
-  if hit then
-    do '(vi, fi) <- nth_error (bins s) pos;
-    Some (with_bins s (set_at pos (vi, (fi + c)%Z) (bins s)))
-  else
-  let interior := negb is_last && Nat.ltb 0 pos in        (* "index > 0": false for -1 *)
-  let try_in_place := interior && Nat.leb (cap s) n in
-  (* _search_in_place_index: fills the gap cache on first use *)
-  do s1 <- (if try_in_place then
-              match diffs s with
-              | Some _ => Some s
-              | None => let g := gaps (bins s) in do m <- lmin g; Some (with_cache s (Some g) (Fin m))
-              end
-            else Some s);
-  do inplace <-
-    (if try_in_place then
-       do '(vp, _) <- nth_error (bins s1) (pos - 1);
-       do '(vq, _) <- nth_error (bins s1) pos;
-       let d1 := sub A v vp in let d2 := sub A vq v in
-       let '(ib, d) := if ltb A d1 d2 then ((pos - 1)%nat, d1) else (pos, d2) in
-       Some (if lt_ext d (min_diff s1) && Nat.ltb 0 ib then Some ib else None)
-     else Some None);
-  match inplace with
-  | Some ib =>                                             (* _trim_in_place *)
-      do '(cv, cf) <- nth_error (bins s1) ib;
-      let m := centroid cv cf v c in
-      let m := pmin (pmax m (pmin cv v)) (pmax cv v) in
-      update_diffs (with_bins s1 (set_at ib (m, (cf + c)%Z) (bins s1))) ib
-  | None =>
-      do s2 <-
-        (if is_last then
-           do '(vl, _) <- nth_error (bins s1) (n - 1);
-           let g := sub A v vl in
-           Some (mkst (bins s1 ++ [(v, c)]) (hmin s1) (hmax s1)
-                      (option_map (fun d => d ++ [g]) (diffs s1))
-                      (match diffs s1 with Some _ => (if lt_ext g (min_diff s1) then Fin g else min_diff s1) | None => min_diff s1 end)
-                      (cap s1))
-         else
-           update_diffs (mkst (insert_at pos (v, c) (bins s1)) (hmin s1) (hmax s1)
-                              (option_map (insert_at pos (ofZ A 0)) (diffs s1)) (min_diff s1) (cap s1)) pos);
-      let mn := match hmin s2 with None => Some v | Some m => if ltb A v m then Some v else Some m end in
-      let mx := match hmax s2 with None => Some v | Some m => if ltb A m v then Some v else Some m end in
-      let s3 := mkst (bins s2) mn mx (diffs s2) (min_diff s2) (cap s2) in
-      trim (length (bins s3)) s3
+  let '(pos, is_last) := locate (bins s) v in
+  match nth_error (bins s) pos with
+  | Some (vi, fi) =>
+      if eqb A vi v then Some (with_bins s (set_at pos (vi, (fi + c)%Z) (bins s)))
+      else update_miss s v c pos is_last
+  | None => update_miss s v c pos is_last
   end.
 
 (* merge(h1, h2): every bin of h2 is fed to update on h1 *)
